@@ -56,6 +56,16 @@ theorem src_CreateIndexGroup_expected : src_CreateIndexGroup = "{ data.MaxIndexG
 
 theorem src_ShardGroupByTimestamp_expected : src_ShardGroupByTimestamp = "{ for i := len(rpi.ShardGroups) - 1; i >= 0; i-- { sgi := &rpi.ShardGroups[i] if sgi.EngineType == engineType && sgi.Contains(timestamp) && !sgi.Deleted() && (!sgi.Truncated() || timestamp.Before(sgi.TruncatedAt)) { return &rpi.ShardGroups[i] } } return nil }" := by rfl
 
+/-! schema clean after a prune (`Schema.lean`) -/
+
+theorem src_msSchemaClean_expected : src_msSchemaClean = "{ if msti.EngineType != config.TSSTORE { return 0 } endTime := TimeReserveHigh32(sgEndTime) msti.SchemaLock.Lock() defer msti.SchemaLock.Unlock() for k, schemaVal := range *(msti.Schema) { if schemaVal.EndTime <= endTime { delete(*(msti.Schema), k) } } return len(*msti.Schema) }" := by rfl
+
+theorem src_TimeReserveHigh32_expected : src_TimeReserveHigh32 = "{ return int32(time >> 32) }" := by rfl
+
+theorem src_dataSchemaClean_expected : src_dataSchemaClean = "{ for _, msti := range rp.Measurements { leftSchema := msti.SchemaClean(sgEndTime) if msti.EngineType == config.TSSTORE && leftSchema == 0 { data.MarkMeasurementDelete(db.Name, rp.Name, msti.originName) } } }" := by rfl
+
+theorem src_UpdateSchema_expected : src_UpdateSchema = "{ msti, err := data.Measurement(database, retentionPolicy, mst) if err != nil { return err } msti.SchemaLock.Lock() defer msti.SchemaLock.Unlock() if msti.Schema == nil { newSchema := NewCleanSchema(0) msti.Schema = &newSchema } if err = checkFieldsToCreate(msti.Schema, fieldToCreate); err != nil { return err } if SchemaCleanEn { cleanSchema := msti.Schema for i := range fieldToCreate { existVal, ok := (*cleanSchema)[fieldToCreate[i].GetFieldName()] if !ok { (*cleanSchema)[fieldToCreate[i].GetFieldName()] = SchemaVal{Typ: int8(fieldToCreate[i].GetFieldType()), EndTime: fieldToCreate[i].GetEndTime()} continue } if int32(existVal.Typ) != fieldToCreate[i].GetFieldType() { return ErrFieldTypeConflict } if existVal.EndTime < fieldToCreate[i].GetEndTime() { (*cleanSchema)[fieldToCreate[i].GetFieldName()] = SchemaVal{Typ: int8(fieldToCreate[i].GetFieldType()), EndTime: fieldToCreate[i].GetEndTime()} } } } else { normalSchema := msti.Schema for i := range fieldToCreate { existType, ok := (*normalSchema)[fieldToCreate[i].GetFieldName()] if !ok { msti.Schema.SetTyp(fieldToCreate[i].GetFieldName(), fieldToCreate[i].GetFieldType()) continue } if int32(existType.Typ) != fieldToCreate[i].GetFieldType() { return ErrFieldTypeConflict } } } return nil }" := by rfl
+
 /-! tier moves (`Tier.lean`) -/
 
 theorem src_FetchShardsNeedChangeStore_expected : src_FetchShardsNeedChangeStore = "{ e.mu.RLock() defer e.mu.RUnlock() var latestShardID uint64 for db := range e.DBPartitions { for pt := range e.DBPartitions[db] { e.DBPartitions[db][pt].mu.RLock() if config.GetStoreConfig().EnableWriteHistoryOrderedData { latestShardID = e.getLatestShard(e.DBPartitions[db][pt].shards) } for id, shard := range e.DBPartitions[db][pt].shards { tier := shard.GetTier() expired := shard.IsTierExpired() if !expired || tier == util.Cold || (config.GetStoreConfig().EnableWriteHistoryOrderedData && id == latestShardID) { continue } if tier == util.Hot { shardsToWarm = append(shardsToWarm, shard.GetIdent()) } else { shardsToCold = append(shardsToCold, shard.GetIdent()) } } e.DBPartitions[db][pt].mu.RUnlock() } } return shardsToWarm, shardsToCold }" := by rfl
